@@ -43,12 +43,12 @@ fn block_on_count<F: Future>(fut: F) -> (F::Output, usize) {
 fn do_await(i: usize) -> String {
     let b0 = BODY[i].load(SeqCst); let e0 = EVAL[i].load(SeqCst);
     let (val, polls) = match i {
-        0 => { let (v, p) = block_on_count(a0(5)); ((if v == 105 { "o".to_string() } else if v >= 70000 { format!("f{}", v - 70000) } else { "?".into() }), p) }
-        1 => { let (v, p) = block_on_count(a1("k")); ((if v == "orig:k" { "o".to_string() } else if let Some(r) = v.strip_prefix("fake:") { format!("f{r}") } else { "?".into() }), p) }
+        0 => { let (v, p) = block_on_count(a0(5)); ((if v == 105 { "o".to_string() } else if v >= 80000 { format!("g{}", v - 80000) } else if v >= 70000 { format!("f{}", v - 70000) } else { "?".into() }), p) }
+        1 => { let (v, p) = block_on_count(a1("k")); ((if v == "orig:k" { "o".to_string() } else if let Some(r) = v.strip_prefix("fake:") { format!("f{r}") } else if let Some(r) = v.strip_prefix("fakeB:") { format!("g{r}") } else { "?".into() }), p) }
         2 => { let (_, p) = block_on_count(a2()); ("u".to_string(), p) }
-        3 => { let (v, p) = block_on_count(a3(9)); ((if v == [9u64; 17] { "o".to_string() } else if v[0] >= 70000 && v.iter().all(|x| *x == v[0]) { format!("f{}", v[0] - 70000) } else { "?".into() }), p) }
-        4 => { let (v, p) = block_on_count(a4(5)); ((if v == 405 { "o".to_string() } else if v >= 70000 { format!("f{}", v - 70000) } else { "?".into() }), p) }
-        _ => { let s = S(1); let (v, p) = block_on_count(s.m0(5)); ((if v == 506 { "o".to_string() } else if v >= 70000 { format!("f{}", v - 70000) } else { "?".into() }), p) }
+        3 => { let (v, p) = block_on_count(a3(9)); ((if v == [9u64; 17] { "o".to_string() } else if v[0] >= 80000 && v.iter().all(|x| *x == v[0]) { format!("g{}", v[0] - 80000) } else if v[0] >= 70000 && v.iter().all(|x| *x == v[0]) { format!("f{}", v[0] - 70000) } else { "?".into() }), p) }
+        4 => { let (v, p) = block_on_count(a4(5)); ((if v == 405 { "o".to_string() } else if v >= 80000 { format!("g{}", v - 80000) } else if v >= 70000 { format!("f{}", v - 70000) } else { "?".into() }), p) }
+        _ => { let s = S(1); let (v, p) = block_on_count(s.m0(5)); ((if v == 506 { "o".to_string() } else if v >= 80000 { format!("g{}", v - 80000) } else if v >= 70000 { format!("f{}", v - 70000) } else { "?".into() }), p) }
     };
     format!("{i}:{val}:{polls}:{}:{}", BODY[i].load(SeqCst) - b0, EVAL[i].load(SeqCst) - e0)
 }
@@ -64,6 +64,18 @@ fn do_fake(inj: &mut InjectorPP, i: usize) {
     }
 }
 
+/// a SECOND, different fake (another async_return! call site) for the same functions: re-faking A, B, A must end with A
+fn do_fake_b(inj: &mut InjectorPP, i: usize) {
+    match i {
+        0 => inj.when_called_async(injectorpp::async_func!(a0(0), u32)).will_return_async(injectorpp::async_return!(80000 + EVAL[0].fetch_add(1, SeqCst) as u32, u32)),
+        1 => inj.when_called_async(injectorpp::async_func!(a1(""), String)).will_return_async(injectorpp::async_return!(format!("fakeB:{}", EVAL[1].fetch_add(1, SeqCst)), String)),
+        2 => inj.when_called_async(injectorpp::async_func!(a2(), ())).will_return_async(injectorpp::async_return!({ EVAL[2].fetch_add(1, SeqCst); }, ())),
+        3 => inj.when_called_async(injectorpp::async_func!(a3(0), [u64; 17])).will_return_async(injectorpp::async_return!([80000 + EVAL[3].fetch_add(1, SeqCst) as u64; 17], [u64; 17])),
+        4 => inj.when_called_async(injectorpp::async_func!(a4(0), u32)).will_return_async(injectorpp::async_return!(80000 + EVAL[4].fetch_add(1, SeqCst) as u32, u32)),
+        _ => { static S0: S = S(0); inj.when_called_async(injectorpp::async_func!(S0.m0(0), u32)).will_return_async(injectorpp::async_return!(80000 + EVAL[5].fetch_add(1, SeqCst) as u32, u32)) }
+    }
+}
+
 fn one(line: &str) -> String {
     let mut it = line.split_whitespace();
     let id = it.next().unwrap();
@@ -74,6 +86,7 @@ fn one(line: &str) -> String {
         let t: Vec<&str> = op.split(':').collect();
         match t[0] {
             "F" => { if let Some(j) = inj.as_mut() { do_fake(j, t[1].parse().unwrap()); out.push("F".to_string()); } else { out.push("F-noinj".into()); } }
+            "G" => { if let Some(j) = inj.as_mut() { do_fake_b(j, t[1].parse().unwrap()); out.push("F".to_string()); } else { out.push("F-noinj".into()); } }
             "A" => out.push(do_await(t[1].parse().unwrap())),
             "T" => { let i: usize = t[1].parse().unwrap(); out.push(std::thread::spawn(move || do_await(i)).join().unwrap()); }
             "D" => { inj = None; out.push("D".into()); }
